@@ -4,6 +4,7 @@
 #include "util/utf8.hh"
 #include <unicode/unistr.h>
 #include <unicode/uchar.h>
+#include <unicode/normalizer2.h>
 #include <cstring>
 using namespace pv;
 using U_ICU_NAMESPACE::UnicodeString;
@@ -49,11 +50,44 @@ static Reg r_lower("icu.lower", [](const std::vector<std::string> &a) -> std::st
   u.toLower();
   return "ok " + units(u);
 });
+// icu.nfkc: the PARAMETER of the model -- ICU's own NFKC (Normalizer2), not the code under test
 static Reg r_nfkc("icu.nfkc", [](const std::vector<std::string> &a) -> std::string {
+  if (a.size() != 1) return "bad-op";
+  UnicodeString u = from_units(a[0]);
+  UErrorCode ec = U_ZERO_ERROR;
+  const U_ICU_NAMESPACE::Normalizer2 *n = U_ICU_NAMESPACE::Normalizer2::getNFKCInstance(ec);
+  if (U_FAILURE(ec)) return "ERR:icu";
+  UnicodeString out = n->normalize(u, ec);
+  if (U_FAILURE(ec)) return "ERR:icu";
+  return "ok " + units(out);
+});
+// icu.isnfkc <units> -> 1 / 0 (Normalizer2::isNormalized)
+static Reg r_isnfkc("icu.isnfkc", [](const std::vector<std::string> &a) -> std::string {
+  if (a.size() != 1) return "bad-op";
+  UErrorCode ec = U_ZERO_ERROR;
+  const U_ICU_NAMESPACE::Normalizer2 *n = U_ICU_NAMESPACE::Normalizer2::getNFKCInstance(ec);
+  if (U_FAILURE(ec)) return "ERR:icu";
+  bool r = n->isNormalized(from_units(a[0]), ec);
+  return std::string("ok ") + (r ? "1" : "0");
+});
+// util.nfkc / util.nfkc8 / util.lower8: the code under test (util/utf8_icu.cc)
+static Reg r_unfkc("util.nfkc", [](const std::vector<std::string> &a) -> std::string {
   if (a.size() != 1) return "bad-op";
   UnicodeString u = from_units(a[0]), out;
   try { util::Normalize(u, out); } catch (const std::exception &) { return "ERR:exception"; }
   return "ok " + units(out);
+});
+static Reg r_unfkc8("util.nfkc8", [](const std::vector<std::string> &a) -> std::string {
+  std::string s, out;
+  if (a.size() != 1 || !unhex(a[0], s)) return "bad-op";
+  try { util::Normalize(util::StringPiece(s), out); } catch (const std::exception &) { return "ERR:exception"; }
+  return "ok " + hex(out);
+});
+static Reg r_ulower8("util.lower8", [](const std::vector<std::string> &a) -> std::string {
+  std::string s, out;
+  if (a.size() != 1 || !unhex(a[0], s)) return "bad-op";
+  try { util::ToLower(util::StringPiece(s), out); } catch (const std::exception &) { return "ERR:exception"; }
+  return "ok " + hex(out);
 });
 static Reg r_u16("icu.fromutf8", [](const std::vector<std::string> &a) -> std::string {
   std::string s;
